@@ -62,9 +62,21 @@ def rule_escinv(prog, rep):
     else:
         rep.instance("C09.ESCINV", "escaped set (%d code points of the partition) covers quote, backslash and the line terminators" % len(escaped))
     # (2) the escape written for each escaped character
-    ms = [n for n in walk(body) if n.get("k") == "match" and n.get("src") == "normal" and strip_expr(n["scrut"]).get("k") == "index"]
+    # the match over the byte to escape: the one `match` with byte-literal arms, in the function
+    # itself or in a private helper that only it calls (e.g. an extracted `serialize_escaped_byte`)
+    from ..core import private_helpers_of
+    bodies = [body]
+    for uid in sorted(private_helpers_of(prog, [fn])):
+        hb = prog.hir_body(prog.fns[uid])
+        if hb:
+            bodies.append(hb["body"])
+
+    def byte_arms(n):
+        return [a for a in n["arms"] if any(q.get("k") == "lit" and q.get("t") in ("int", "byte", "u8") for q in walk(a["pat"]))]
+
+    ms = [n for bd in bodies for n in walk(bd) if n.get("k") == "match" and n.get("src") == "normal" and len(byte_arms(n)) >= 2]
     if len(ms) != 1:
-        raise Undecided("serialize_string_value: expected one match over the byte to escape")
+        raise Undecided("serialize_string_value: expected one match over the byte to escape (found %d)" % len(ms))
     m = ms[0]
     n_ok = 0
     for c in sorted(escaped):
